@@ -63,5 +63,6 @@ def remove_indentation(source: str) -> str:
         return ''
 
     indent = min(spaces)
-    lines = [l[indent:] for l in lines]
+    # a whitespace-only line carries no indentation of its own: it is re-indented as an empty line on output
+    lines = [l[indent:] if l and not l.isspace() else '' for l in lines]
     return '\n'.join(lines)
